@@ -48,7 +48,7 @@ func c16CLIRun(in *c16CLIInput) Res {
 		select {
 		case r := <-done:
 			return r
-		case <-time.After(30 * time.Second):
+		case <-hangAfter(30 * time.Second):
 			return Err("hang")
 		}
 	})
